@@ -18,20 +18,17 @@ MSG_PROLOGUE = PROLOGUE + '''#[allow(unused_imports)] use crate::messages::radio
 '''
 
 
-def leaf_post(name, ty, w, value, extra='', base=False):
-    """named postcondition of a bit-cursor leaf parser that consumes exactly w bits.
-    `value` is a boolean expression over x (= parsed value) and v (= fld(orig, p, w)).
-    base=True adds the non-quantified instance orig := data.0@, p := data.1 (needed when the parser is the
-    first thing run on a fresh cursor, where no `at` term exists yet to trigger the quantifier)."""
-    b = ''
-    if base:
-        b = '''
-    &&& (if 8 * data.0@.len() - data.1 >= %(w)s { r is Ok && at(data.0@, r->Ok_0.0, data.1 + %(w)s) && ({ let x = r->Ok_0.1; let v = fld(data.0@, data.1 as int, %(w)s); %(value)s }) } else { r is Err })''' % dict(w=w, value=value)
-    return '''pub open spec fn %(name)s(data: (&[u8], usize), r: nom::IResult<(&[u8], usize), %(ty)s>) -> bool {
-    &&& leaf_ok(data, %(w)s, r)
-    &&& forall|orig: Seq<u8>, p: int| #[trigger] at(orig, data, p) && r is Ok ==> ({ let x = r->Ok_0.1; let v = fld(orig, p, %(w)s); %(value)s })%(base)s%(extra)s
+def leaf_post(name, ty, w, value, params='', cur='data', extra=''):
+    """named postcondition of a bit-cursor leaf parser that consumes exactly w bits (or fails recoverably).
+    `value` is a boolean expression over x (= parsed value), v (= fld(orig, p, w)), orig and p.
+    One quantifier per contract (fewer instantiations than separate position / value clauses)."""
+    return '''pub open spec fn %(name)s(%(cur)s: (&[u8], usize), %(params)sr: nom::IResult<(&[u8], usize), %(ty)s>) -> bool {
+    &&& (r is Err ==> r->Err_0 is Error)
+    &&& (r is Ok ==> cur_ok(r->Ok_0.0) && r->Ok_0.0.0@.len() <= %(cur)s.0@.len())
+    &&& forall|orig: Seq<u8>, p: int| #[trigger] at(orig, %(cur)s, p) ==>
+        if 8 * orig.len() - p >= %(w)s { r is Ok && at(orig, r->Ok_0.0, p + %(w)s) && ({ let x = r->Ok_0.1; let v = fld(orig, p, %(w)s); %(value)s }) } else { r is Err }%(extra)s
 }
-''' % dict(name=name, ty=ty, w=w, value=value, extra=extra, base=b)
+''' % dict(name=name, ty=ty, w=w, value=value, params=params, cur=cur, extra=extra)
 
 
 def bits_closure_head(struct, post_clauses, lifetime=None, requires=('data.1 == 0', 'small(data.0@.len() as int)')):
